@@ -450,6 +450,9 @@ func runCheck(prop, tier string) int {
 	if g.constGlobalUsed {
 		assumptions = append(assumptions, "package-level variables that the loaded program only initialises with a constant and never assigns or takes the address of (e.g. the ua.Status* codes, which are vars) are read as that constant")
 	}
+	if g.nonNilGlobalUsed {
+		assumptions = append(assumptions, "package-level pointer variables that the loaded program only initialises with the address of a composite literal and never assigns or takes the address of (e.g. uacp.DefaultClientACK) are non-nil")
+	}
 	for _, s := range g.contracts.Scan {
 		assumptions = append(assumptions, "assume found in contract file: "+s)
 	}
